@@ -256,6 +256,18 @@ def whitelist(repo: Repo):
                 vals.append(e.value)
             # the failing branch must raise
             return st, vals, n
+        if isinstance(n, ast.Compare) and len(n.ops) == 1 and isinstance(n.ops[0], ast.NotIn) \
+                and isinstance(comp, (ast.Attribute, ast.Name, ast.Call)):
+            # membership in the registry itself (`not in d.DISTANCES` / `.keys()`): the whitelist IS the registry
+            c2 = comp.func.value if isinstance(comp, ast.Call) and isinstance(comp.func, ast.Attribute) \
+                and comp.func.attr == "keys" and not comp.args else comp
+            mi = repo.modules[st.module]
+            txt = unparse(c2)
+            head, _, tail = txt.rpartition(".")
+            if (tail == "DISTANCES" and mi.imports.get(head) == "opfython.math.distance") or \
+                    mi.imports.get(txt) == "opfython.math.distance.DISTANCES":
+                from .algebra import MetricTranslator
+                return st, sorted(MetricTranslator(repo).registry()), n
     raise AnalysisError("distance whitelist (`if distance not in [...]`) not found")
 
 
@@ -272,8 +284,10 @@ def check_registry(rep, M: Metrics, pre: str = "") -> None:
            not only_reg and not only_wl,
            f"only in registry: {only_reg}; only in whitelist: {only_wl}", line=node.lineno)
     # the whitelist test guards a raise, and the setter stores the value
-    raises = [n for n in ast.walk(st.node) if isinstance(n, ast.If) and n.test is node
-              and any(isinstance(b, ast.Raise) for b in n.body)]
+    # (the membership test may be one disjunct of the rejecting condition: `not isinstance(v, str) or v not in ...`)
+    raises = [n for n in ast.walk(st.node) if isinstance(n, ast.If) and (n.test is node or (
+        isinstance(n.test, ast.BoolOp) and isinstance(n.test.op, ast.Or) and any(v is node for v in n.test.values)))
+        and any(isinstance(b, ast.Raise) for b in n.body)]
     rep.fn(pre + "REG-reject", st, "an identifier outside the whitelist is rejected", len(raises) == 1,
            "the whitelist test does not raise", line=node.lineno)
     dist = repo.module("opfython.math.distance")
@@ -333,9 +347,32 @@ def check_shift_wrapper(rep, M: Metrics, pre: str = "") -> None:
     detail = "the wrapper must call the metric exactly once with (x + c.EPSILON, y + c.EPSILON)"
     if len(calls) == 1 and len(calls[0].args) == 2 and len(fi.params) == 2:
         want = tuple(("bin", "+", *sorted([("K", "EPSILON"), ("param", p)], key=repr)) for p in fi.params)
-        ok = calls[0].args == want and not calls[0].guards
+
+        def values(t):
+            """The VALUE an argument has: copies and the promotion numpy would apply anyway do not change it (whether a
+            copy is a copy is the effect analysis' question, PURE-metric / OWN-param)."""
+            if not isinstance(t, tuple) or not t:
+                return t
+            t = tuple(values(x) for x in t)
+            if t[0] == "call" and t[1][0] == "attr" and len(t[1]) == 3:
+                v, meth = t[1][1], t[1][2]
+                if meth == "copy" and not t[2]:
+                    return v
+                if meth == "astype" and len(t[2]) == 1 and t[2][0] in (
+                        ("call", ("mod", "numpy.result_type"), (v, ("K", "EPSILON")), ()),
+                        ("call", ("mod", "numpy.result_type"), (("K", "EPSILON"), v), ())):
+                    return v
+            if t[0] == "call" and t[1] in (("mod", "numpy.array"), ("mod", "numpy.asarray"), ("mod", "numpy.copy")) \
+                    and len(t[2]) == 1 and not t[3]:
+                return t[2][0]
+            if t[0] == "sel" and t[2] == t[3]:
+                return t[2]
+            return t
+        ok = tuple(values(a) for a in calls[0].args) == want and not calls[0].guards
         rets = [e for e in w.events if e.kind == "return" and e.fn is w.entry]
         ok = ok and len(rets) == 1 and rets[0].value == calls[0].value
+        import dataclasses
+        calls = [dataclasses.replace(calls[0], args=tuple(values(a) for a in calls[0].args))]
         if not ok:
             detail = f"the metric receives ({', '.join(str(__import__('opfcheck.ir', fromlist=['show']).show(a)) for a in calls[0].args)})"
     rep.fn(pre + "SHIFT-args", fi, "decorated metrics see (x + EPSILON, y + EPSILON)", ok, detail)
